@@ -99,7 +99,9 @@ func vpGenSteps(depth, max int) (steps pipeline.Steps, infos []*vpStepInfo, unkn
 		}
 		switch vpInt(0, top) {
 		case 0:
-			in := &vpStepInfo{command: vpStr(1, "a-b"), label: "l"}
+			// command text may contain any short separator the package's own code
+			// mentions (line endings, delimiters): text is text
+			in := &vpStepInfo{command: vpStr(1, "a-b") + vpStrConstLike("*", "^[^A-Za-z0-9]{1,3}$", "") + "z", label: "l"}
 			c := &pipeline.CommandStep{Command: in.command, Label: in.label}
 			if vpParam("lite") == 0 && vpBool() {
 				c.Env = map[string]string{}
